@@ -124,7 +124,33 @@ func init() {
 			}
 			return "https://dns.nextdns.io/bbb222", "bbb222"
 		}
-		disc := discovery.Resolver{hosts, dhcp}
+		// the mDNS source: the real receive loop on a loopback socket, fed by a background
+		// announcer; entries are aged now and then (code that only runs for old entries)
+		mconn, merr := net.ListenUDP("udp4", &net.UDPAddr{IP: net.IPv4(127, 0, 0, 1)})
+		if merr != nil {
+			return merr
+		}
+		mdns := discovery.VerifNewMDNS()
+		mdone := make(chan struct{})
+		go func() {
+			defer func() { recover(); close(mdone) }()
+			discovery.VerifMDNSRead(mdns, mconn)
+		}()
+		defer func() { mconn.Close(); <-mdone }()
+		msnd, merr := net.DialUDP("udp4", nil, mconn.LocalAddr().(*net.UDPAddr))
+		if merr != nil {
+			return merr
+		}
+		defer msnd.Close()
+		announce := func(name, addr string) {
+			p := mpkt{ok: true, recs: []mrec{{sec: 0, kind: "4", name: name, addr: addr}}}
+			_, _ = msnd.Write(p.wire(0))
+		}
+		announce("client.local.", "127.0.0.1")
+		announce("Tv.local.", "192.168.1.50")
+		announce("phone.local.", "192.168.1.9")
+		time.Sleep(50 * time.Millisecond)
+		disc := discovery.Resolver{hosts, dhcp, mdns}
 		res.DOH.ClientInfo = func(q query.Query) resolver.ClientInfo {
 			names := disc.LookupAddr(q.PeerIP.String())
 			n := ""
@@ -149,7 +175,8 @@ func init() {
 		var wg sync.WaitGroup
 		var sent, answered int64
 		names := [][]string{{"nas", "lan"}, {"printer", "lan"}, {"www", "example", "com"}, {"foo", "example", "org"},
-			{"9", "1", "168", "192", "in-addr", "arpa"}, {"1", "1", "1", "10", "in-addr", "arpa"}, {"phone"}, {"wiki", "corp"}}
+			{"9", "1", "168", "192", "in-addr", "arpa"}, {"1", "1", "1", "10", "in-addr", "arpa"}, {"phone"}, {"wiki", "corp"},
+			{"tv", "local"}, {"50", "1", "168", "192", "in-addr", "arpa"}, {"h3", "local"}}
 		for ci := 0; ci < 10; ci++ {
 			wg.Add(1)
 			go func(ci int) {
@@ -188,6 +215,11 @@ func init() {
 				writeFileAtomic(leasePath, mkLease(k))
 				hosts.VerifExpire()
 				dhcp.VerifExpire()
+				mdns.VerifMDNSAge(2 * time.Minute)
+				if k%4 == 0 {
+					announce(fmt.Sprintf("h%d.local.", k%40), fmt.Sprintf("192.168.2.%d", k%40+1))
+					announce("client.local.", "127.0.0.1")
+				}
 				if k%3 == 0 {
 					atomic.StoreInt32(&healthy, int32(k/3%2))
 					_ = mgr.Test(context.Background())
